@@ -42,33 +42,6 @@ def eqOut : Except Err Dtype → Except Err Dtype → Bool
   | .error a, .error b => a == b
   | _, _ => false
 
-/-! ## the model agrees with the live library on the whole finite domain -/
-
-/-- every (route, dtype, scalar/array) outcome observed on the live library — result dtype or
-    exception class — is the model's -/
-theorem model_matches_observed_routes :
-    observedRoutes.all (fun (r, d, q, o) => eqOut (routeDtype N P r d q) o) = true := by
-  decide +kernel
-
-/-- every observed outcome of `np.add(x[d0] m, y[d1] km)` is the model's -/
-theorem model_matches_observed_binary :
-    observedBinary.all (fun (a, b, o) => eqOut (binaryResultDtype N P a b true false) o) = true := by
-  decide +kernel
-
-/-- every observed outcome of `np.add(x m, y km, out=buf[o])` is the model's -/
-theorem model_matches_observed_out :
-    observedOut.all (fun (o, r) => eqOut (binaryOutDtype N P float64 float64 o true) r) = true := by
-  decide +kernel
-
-/-- the observed tables cover the whole domain (nothing was dropped by the translator) -/
-theorem observed_tables_cover_domain :
-    (Route.all.all fun r => N.dtypes.all fun d => [false, true].all fun q =>
-        observedRoutes.any fun (r', d', q', _) => r' == r && d' == d && q' == q) = true
-    ∧ (N.dtypes.all fun a => N.dtypes.all fun b =>
-        observedBinary.any fun (a', b', _) => a' == a && b' == b) = true
-    ∧ (N.dtypes.all fun o => observedOut.any fun (o', _) => o' == o) = true := by
-  decide +kernel
-
 /-! ## dtype selection, route by route -/
 
 /-- copy route (`in_units`, `to`): integers become the float of the same item size (float16 for
@@ -114,15 +87,6 @@ def verdict (r : Route) (d : Dtype) (q : Bool) : Bool :=
 /-- the full dtype statement: on every route, for every dtype, scalar or array -/
 def C17_dtype_full : Prop :=
   ∀ r ∈ Route.all, ∀ d ∈ scope, ∀ q : Bool, verdict r d q = true
-
-/-- the region where unyt violates it (each line is a listed finding):
-    * `in_base` (`in_cgs`, `in_mks`) returns float64 for every integer narrower than 64 bits;
-    * `to_equivalent` across dimensions widens every narrow dtype to 64-bit components;
-    * `to_value` on a complex or long-double `unyt_quantity` goes through `float(…)`. -/
-def knownExcluded (r : Route) (d : Dtype) (q : Bool) : Bool :=
-  (r == .inBase && d.isInt && d.size != 8)
-  || (r == .toEquivalent && ((d.isInt && d.size != 8) || d == ⟨.f, 2⟩ || d == ⟨.f, 4⟩ || d == ⟨.c, 8⟩))
-  || (r == .toValue && q && (d.kind == .c || d == ⟨.f, 16⟩))
 
 /-- outside the excluded region the statement holds on the whole domain … -/
 theorem route_dtype_partial :
